@@ -4,6 +4,7 @@ from __future__ import annotations
 
 import asyncio
 import json
+from unittest.mock import patch
 
 from aiomysensors.exceptions import AIOMySensorsError, TransportError
 from aiomysensors.gateway import Config, Gateway
@@ -137,7 +138,7 @@ class Scenario:
         cfg = self.cfg
 
         def bad(k, what):
-            viols.append((f"C16|{k}|body={cfg['body']}|connect={cfg['connect']}|disconnect={cfg['disconnect']}", f"{cfg}: {what}", None))
+            viols.append((f"C16|{k}|body={cfg['body']}|connect={cfg['connect']}|disconnect={cfg['disconnect']}|{cfg.get('transport', 'script')}", f"{cfg}: {what}", None))
 
         try:
             if hang:
@@ -153,16 +154,16 @@ class Scenario:
                     return viols
                 if cfg.get("file", "present") == "present" and self.seen_at_entry != [1]:
                     bad("file-not-loaded-on-entry", f"registry at entry was {self.seen_at_entry}, the file holds node 1")
-                if "disconnect" not in self.t.calls:
-                    bad("not-disconnected", f"transport calls {self.t.calls}")
+                if not self.disconnected():
+                    bad("not-disconnected", f"the transport was not disconnected (calls {self.t.calls})")
                 if kind == "raise":
                     if isinstance(exc, asyncio.CancelledError):
                         bad("cancelled-error-escaped", "CancelledError left the async with block")
                     elif isinstance(exc, RuntimeError) and str(exc) == "body":
                         if cfg["body"] != "raise":
                             bad("phantom-body-error", "body error without a raising body")
-                    elif isinstance(exc, AIOMySensorsError) and cfg["disconnect"] == "fail":
-                        pass
+                    elif isinstance(exc, AIOMySensorsError) and cfg["disconnect"] == "fail" and cfg.get("transport", "script") == "script":
+                        pass  # the script transport's disconnect raises a library error; the built-in ones absorb theirs
                     else:
                         bad(f"foreign-exception:{type(exc).__name__}", f"{exc!r} left the async with block")
                 else:
@@ -206,6 +207,8 @@ class Scenario:
         finally:
             if self._cm is not None:
                 self._cm.__exit__(None, None, None)
+            for p in self.patches:
+                p.stop()
         return viols
 
     def observation(self):
@@ -221,13 +224,78 @@ class Scenario:
 # -- transports -------------------------------------------------------------------------
 
 
+class _StreamWriterFake:
+    def __init__(self, fail_close: bool) -> None:
+        self.closed = False
+        self.fail_close = fail_close
+        self.data = b""
+
+    def write(self, b: bytes) -> None:
+        self.data += b
+
+    async def drain(self) -> None:
+        return None
+
+    def close(self) -> None:
+        self.closed = True
+        if self.fail_close:
+            raise OSError("injected close failure")
+
+    async def wait_closed(self) -> None:
+        return None
+
+
 def make_transport(cfg, loop, sc):
-    t = AsyncScriptTransport(loop)
-    if cfg["connect"] == "fail":
-        t.connect_error = TransportError("injected connect failure")
-    if cfg["disconnect"] == "fail":
-        t.disconnect_error = TransportError("injected disconnect failure")
-    return t
+    kind = cfg.get("transport", "script")
+    sc.patches = []
+    sc.disconnected = lambda: "disconnect" in sc.t.calls
+    if kind == "script":
+        t = AsyncScriptTransport(loop)
+        if cfg["connect"] == "fail":
+            t.connect_error = TransportError("injected connect failure")
+        if cfg["disconnect"] == "fail":
+            t.disconnect_error = TransportError("injected disconnect failure")
+        return t
+    if kind in ("tcp", "serial"):
+        from aiomysensors.transport.serial import SerialTransport
+        from aiomysensors.transport.tcp import TCPTransport
+
+        writer = _StreamWriterFake(cfg["disconnect"] == "fail")
+        reader = asyncio.StreamReader(loop=loop)
+
+        async def factory(*a, **kw):
+            if cfg["connect"] == "fail":
+                raise ConnectionRefusedError("injected connect failure")
+            return reader, writer
+
+        target = "aiomysensors.transport.tcp.asyncio.open_connection" if kind == "tcp" else "aiomysensors.transport.serial.open_serial_connection"
+        p = patch(target, factory)
+        p.start()
+        sc.patches.append(p)
+        sc.disconnected = lambda: writer.closed
+        t = TCPTransport("h") if kind == "tcp" else SerialTransport("p")
+        t.calls = []
+        return t
+    if kind == "mqtt":
+        from aiomqtt import MqttError
+        from aiomysensors.transport.mqtt import MQTTClient
+
+        from ..mqttfake import FakeClient
+
+        p = patch("aiomysensors.transport.mqtt.AsyncioClient", FakeClient)
+        p.start()
+        sc.patches.append(p)
+        FakeClient.instances.clear()
+        FakeClient.plan = {}
+        if cfg["connect"] == "fail":
+            FakeClient.plan["connect"] = MqttError("injected connect failure")
+        if cfg["disconnect"] == "fail":
+            FakeClient.plan["exit"] = MqttError("injected disconnect failure")
+        sc.disconnected = lambda: bool(FakeClient.instances) and FakeClient.instances[-1].exited == 1
+        t = MQTTClient("broker")
+        t.calls = []
+        return t
+    raise ValueError(kind)
 
 
 def transport_events(sc) -> list:
@@ -249,19 +317,37 @@ def configs(ctx: core.Ctx) -> list:
             out.append({"body": body, "connect": "ok", "disconnect": disconnect, "file": "present"})
     out.append({"body": "return", "connect": "fail", "disconnect": "ok", "file": "present"})
     out.append({"body": "return", "connect": "ok", "disconnect": "ok", "file": "missing"})
+    out.append({"body": "raise", "connect": "ok", "disconnect": "ok", "file": "missing"})
+    for o in list(out):
+        o["transport"] = "script"
+    # the built-in transport kinds, through the seams the repo's own tests patch
+    for kind in ("tcp", "serial", "mqtt"):
+        for body in ("return", "raise"):
+            for disconnect in ("ok", "fail"):
+                out.append({"body": body, "connect": "ok", "disconnect": disconnect, "file": "present", "transport": kind})
+        out.append({"body": "return", "connect": "fail", "disconnect": "ok", "file": "present", "transport": kind})
     return out
 
 
 def run(ctx: core.Ctx) -> core.Report:
     K = 2 if ctx.quick else 99
-    res = explore.explore(ctx, MOD, configs(ctx), K)
+    cfgs = configs(ctx)
+    res = explore.explore(ctx, MOD, [c for c in cfgs if c["transport"] == "script"], K)
+    # built-in transports: same scenario through the real TCP/serial/MQTT classes (quick: at most 1 early firing)
+    K2 = 1 if ctx.quick else 3
+    res2 = explore.explore(ctx, MOD, [c for c in cfgs if c["transport"] != "script"], K2)
+    for k in ("executions", "nontrivial", "hangs"):
+        res[k] += res2[k]
+    res["distinct_outcomes"] += res2["distinct_outcomes"]
+    res["max_points"] = max(res["max_points"], res2["max_points"])
+    res["violations"] += res2["violations"]
     cov = {
         "evaluations": res["executions"],
         "distinct_nontrivial": res["nontrivial"],
         "distinct_outcomes": res["distinct_outcomes"],
         "rule": "every execution is a distinct schedule of {complete the next executor job (open/read/write/close of a load or save), advance the clock to the next timer (<= 3 firings), let the body exit} x body returns/raises x connect/disconnect ok/fail; a cancelled executor job branches into 'takes effect' and 'dropped'; non-trivial = the exit lands while the saver has a file operation or a step pending, or a cancelled job exists",
         "exhaustive": True,
-        "bounds": {"K_deviations": K, "clock_firings": MAX_CLOCK, "configs": len(configs(ctx)), "max_choice_points": res["max_points"]},
+        "bounds": {"K_deviations": K if K < 99 else "unbounded: every schedule (script transport)", "K_deviations_builtin_transports": K2, "clock_firings": MAX_CLOCK, "configs": len(configs(ctx)), "max_choice_points": res["max_points"]},
         "samples": [res["sample"]],
     }
     return core.Report(
